@@ -1,6 +1,7 @@
 SPECIFICATION Spec
 CONSTANTS Messages <- MCMessages
           AsCoded = TRUE
+          Fixed = FALSE
           Mode = "http"
           MaxMsgs = 1
           HasTimeout = TRUE
